@@ -230,3 +230,11 @@ PROPS["C16"] = {
     "assumptions": ["read_line returns Ok(0) at end of input (documented behaviour of std)"],
     "finding_key": lambda sf: None,
 }
+
+# source files outside the anchors' call closure whose change should also enlarge the budget (search-level / position-path oracles)
+PROPS["C15"]["extra_files"] = ["search.rs"]
+PROPS["C17"]["extra_files"] = ["search.rs"]
+PROPS["C02"]["extra_files"] = ["uci.rs"]
+PROPS["C01"]["extra_files"] = ["fen.rs"]
+PROPS["C11"]["extra_files"] = ["fen.rs"]
+PROPS["C14"]["extra_files"] = ["search.rs"]
